@@ -668,7 +668,65 @@ func c17(x *Ctx) {
 			c.Decide(ok && idxOK && seedConst && recvSorted, rS, "loadPeerList/hashes", x.Pos(h), "hashes built from the sorted list, its indices and a constant seed",
 				"shard hashes are not built from the sorted peer list with its own indices and a constant seed: nodes that learnt peers in different orders disagree on owners")
 		}
-		if len(hashCalls) == 0 {
+		// the table may be built by a helper of the package that is handed the sorted list
+		helperOK := false
+		if len(hashCalls) == 0 && sortCall != nil {
+			sorted := eng.CallArgs(sortCall.(ssa.CallInstruction))[0]
+			eng.Instrs(lp, func(in ssa.Instruction) {
+				cl, ok := in.(*ssa.Call)
+				if !ok {
+					return
+				}
+				h := cl.Call.StaticCallee()
+				if h == nil || h.Pkg != lp.Pkg || len(h.Blocks) == 0 {
+					return
+				}
+				var inner []ssa.Instruction
+				eng.Instrs(h, func(i2 ssa.Instruction) {
+					if _, ok := eng.IsCall(i2, "(sharder.detShard).GetHashesFor"); ok {
+						inner = append(inner, i2)
+					}
+				})
+				if len(inner) == 0 {
+					return
+				}
+				// which parameter of the helper receives the sorted list
+				var listParam *ssa.Parameter
+				for i, a := range cl.Call.Args {
+					_, d1 := eng.Derives(a, func(w ssa.Value) bool { return w == sorted }, eng.FlowOpts{})
+					_, d2 := eng.Derives(sorted, func(w ssa.Value) bool { return w == a }, eng.FlowOpts{})
+					if _, isSlice := a.Type().Underlying().(*types.Slice); isSlice && (d1 || d2 || a == sorted) && i < len(h.Params) {
+						listParam = h.Params[i]
+					}
+				}
+				good := listParam != nil && eng.Dominates(sortCall, in)
+				for _, hc := range inner {
+					a := eng.CallArgs(hc.(ssa.CallInstruction))
+					idxOK := len(a) >= 1 && isRangeIndex(a[0])
+					seedOK := false
+					switch sv := a[len(a)-1].(type) {
+					case *ssa.Const:
+						seedOK = true
+					case *ssa.Parameter:
+						seedOK = true
+						for _, ca := range x.callerArgs(h, sv) {
+							if _, isK := ca.(*ssa.Const); !isK {
+								seedOK = false
+							}
+						}
+					}
+					recvOK := listParam != nil && rangeElemOf(eng.Receiver(hc.(ssa.CallInstruction)), func(v ssa.Value) bool { return v == ssa.Value(listParam) })
+					if !(idxOK && seedOK && recvOK) {
+						good = false
+					}
+					c.Examined++
+				}
+				helperOK = true
+				c.Decide(good, rS, "loadPeerList/hashes", x.Pos(in), "hashes built (in "+BaseName(h)+") from the sorted list, its indices and a constant seed",
+					"shard hashes are not built from the sorted peer list with its own indices and a constant seed: nodes that learnt peers in different orders disagree on owners")
+			})
+		}
+		if len(hashCalls) == 0 && !helperOK {
 			c.Violate(rS, "loadPeerList/hashes", x.PosOf(lp.Pos()), "no shard hashes are computed")
 		}
 		// every partition entry that goes into the table was computed in this very rebuild: an entry carries the
